@@ -1,4 +1,5 @@
 import Gaftools.Spec.Graph
+import Gaftools.Proofs.AlgoLemmas
 /-!
 # C15 — graph decomposition primitives are exact
 
@@ -6,7 +7,7 @@ Full proofs: connected components (`all_components`), depth-first traversal, and
 `biccs`: see the end of the file — exactness is stated in full (`BiccExact`), what is proved is labelled `…_partial`.
 -/
 namespace Gaftools.C15
-open Gaftools.Gfa Gaftools.Algo Gaftools.Spec.Graph
+open Gaftools.Gfa Gaftools.Algo Gaftools.Spec.Graph Gaftools.Proofs.Algo
 
 /-! ## connected components -/
 
@@ -19,24 +20,160 @@ theorem findComp_exact (nb : V → List V) (Vs : List V) (hu : Undirected nb Vs)
     (vis : List V) (hv : ClosedSet nb vis) (hn : start ∉ vis) :
     let r := findComp nb Vs start vis
     r.1.Nodup ∧ (∀ b, b ∈ r.1 ↔ Reach nb start b) ∧ (∀ b, b ∈ r.2 ↔ b ∈ vis ∨ Reach nb start b) := by
-  sorry
+  intro r
+  have hS : ∀ b ∈ vis, ¬ Reach nb start b := fun b hb hr => hn (hv b hb start (Reach.symm hu.symm hr))
+  have hvis0 : ∀ v, v ∈ (if vis.contains start then vis else start :: vis) ↔ v ∈ vis ∨ v = start :=
+    mem_flag' vis start
+  by_cases hemp : (nb start).isEmpty = true
+  · have hr : r = ([start], if vis.contains start then vis else start :: vis) := by
+      simp only [r, findComp, hemp, if_true]
+    have hnil : nb start = [] := List.isEmpty_iff.mp hemp
+    have hone : ∀ b, Reach nb start b ↔ b = start :=
+      fun b => ⟨Reach.eq_of_nil hnil, fun h => h ▸ Reach.refl _⟩
+    rw [hr]
+    refine ⟨by simp, fun b => by simp [hone], fun b => ?_⟩
+    simp only [hvis0, hone]
+  · have hr : r = findCompLoop nb Vs [start] [] (if vis.contains start then vis else start :: vis) := by
+      simp only [r, findComp, hemp]; rfl
+    rw [hr]
+    exact findCompLoop_exact nb Vs hu.closed start hs vis hS _ hvis0
+
+/-- invariant of the outer loop of `all_components` -/
+theorem allComponentsGo_partition (nb : V → List V) (Vs : List V) (hu : Undirected nb Vs) :
+    ∀ rest vis acc, (∀ x ∈ rest, x ∈ Vs) → ClosedSet nb vis →
+      (∀ c ∈ acc, c ≠ [] ∧ c.Nodup ∧ (∀ a ∈ c, a ∈ Vs) ∧ (∀ a ∈ c, ∀ b, Reach nb a b ↔ b ∈ c)) →
+      (∀ v, v ∈ vis ↔ ∃ c ∈ acc, v ∈ c) →
+      acc.Pairwise (fun c d => ∀ a ∈ c, a ∉ d) →
+      (∀ v ∈ Vs, v ∈ vis ∨ v ∈ rest) →
+      IsPartition nb Vs (allComponentsGo nb Vs rest vis acc) := by
+  intro rest vis acc
+  induction rest, vis, acc using allComponentsGo.induct (nb := nb) (Vs := Vs) with
+  | case1 vis acc =>
+    intro _ _ hacc hvis hpw hcov
+    simp only [allComponentsGo]
+    refine ⟨hacc, ?_, hpw⟩
+    intro v hv
+    rcases hcov v hv with h | h
+    · exact (hvis v).mp h
+    · simp at h
+  | case2 n rest vis acc hc ih =>
+    intro hrest hclosed hacc hvis hpw hcov
+    rw [allComponentsGo, if_pos hc]
+    apply ih (fun x hx => hrest x (List.mem_cons_of_mem _ hx)) hclosed hacc hvis hpw
+    intro v hv
+    rcases hcov v hv with h | h
+    · exact Or.inl h
+    · rcases List.mem_cons.mp h with h' | h'
+      · subst h'; exact Or.inl (by simpa using hc)
+      · exact Or.inr h'
+  | case3 n rest vis acc hc cc vis' heq ih =>
+    intro hrest hclosed hacc hvis hpw hcov
+    rw [allComponentsGo, if_neg hc]
+    simp only [heq]
+    have hnV : n ∈ Vs := hrest n (by simp)
+    have hnvis : n ∉ vis := by simpa using hc
+    have hex := findComp_exact nb Vs hu n hnV vis hclosed hnvis
+    simp only [heq] at hex
+    obtain ⟨hnd, hcc, hv'⟩ := hex
+    apply ih (fun x hx => hrest x (List.mem_cons_of_mem _ hx))
+    · -- closed
+      intro a ha b hab
+      rcases (hv' a).mp ha with h | h
+      · exact (hv' b).mpr (Or.inl (hclosed a h b hab))
+      · exact (hv' b).mpr (Or.inr (Reach.trans h hab))
+    · intro c hc'
+      rcases List.mem_append.mp hc' with h | h
+      · exact hacc c h
+      · simp at h; subst h
+        refine ⟨?_, hnd, ?_, ?_⟩
+        · intro he
+          have : n ∈ c := (hcc n).mpr (Reach.refl _)
+          rw [he] at this; simp at this
+        · intro a ha
+          exact Reach.mem hu.closed ((hcc a).mp ha) hnV
+        · intro a ha b
+          have hna := (hcc a).mp ha
+          constructor
+          · intro hab; exact (hcc b).mpr (Reach.trans hna hab)
+          · intro hb; exact Reach.trans (Reach.symm hu.symm hna) ((hcc b).mp hb)
+    · intro v
+      rw [hv' v, hvis v]
+      constructor
+      · rintro (⟨c, hc1, hc2⟩ | h)
+        · exact ⟨c, List.mem_append_left _ hc1, hc2⟩
+        · exact ⟨cc, by simp, (hcc v).mpr h⟩
+      · rintro ⟨c, hc1, hc2⟩
+        rcases List.mem_append.mp hc1 with h | h
+        · exact Or.inl ⟨c, h, hc2⟩
+        · simp at h; subst h; exact Or.inr ((hcc v).mp hc2)
+    · rw [List.pairwise_append]
+      refine ⟨hpw, by simp, ?_⟩
+      intro c hc1 d hd a ha had
+      simp at hd; subst hd
+      have hav : a ∈ vis := (hvis a).mpr ⟨c, hc1, ha⟩
+      have hna := (hcc a).mp had
+      exact hnvis (hclosed a hav n (Reach.symm hu.symm hna))
+    · intro v hv
+      rcases hcov v hv with h | h
+      · exact Or.inl ((hv' v).mpr (Or.inl h))
+      · rcases List.mem_cons.mp h with h' | h'
+        · subst h'; exact Or.inl ((hv' v).mpr (Or.inr (Reach.refl _)))
+        · exact Or.inr h'
 
 /-- `all_components` partitions the node set into the true connected components -/
 theorem components_partition (nb : V → List V) (Vs : List V) (hu : Undirected nb Vs) (hd : Vs.Nodup) :
     IsPartition nb Vs (allComponents nb Vs) := by
-  sorry
+  have h := allComponentsGo_partition nb Vs hu Vs [] [] (fun x hx => hx) (fun a ha => by simp at ha)
+    (by simp) (by simp) (by simp) (fun v hv => Or.inr hv)
+  exact h
 
 /-! ## depth-first traversal -/
+
+/-- the three non-trivial return paths of `dfs`, characterised together -/
+theorem dfs_spec (nb : V → List V) (Vs : List V) (hu : Undirected nb Vs) (start : V) (hs : start ∈ Vs) :
+    (dfs nb Vs start).Nodup ∧ (∀ b, b ∈ dfs nb Vs start ↔ Reach nb start b) ∧
+    (dfs nb Vs start).head? = some start := by
+  have hc : Vs.contains start = true := by simpa using hs
+  by_cases h1 : (Vs.length == 1) = true
+  · have hd : dfs nb Vs start = Vs := by simp only [dfs, hc, h1]; rfl
+    have hV : Vs = [start] := by
+      have hl : Vs.length = 1 := by simpa using h1
+      match Vs, hl, hs with
+      | [v], _, hs => simp at hs; rw [hs]
+    rw [hd, hV]
+    refine ⟨by simp, ?_, rfl⟩
+    intro b
+    constructor
+    · intro hb; simp at hb; subst hb; exact Reach.refl _
+    · intro hr
+      have := Reach.mem hu.closed hr hs
+      rw [hV] at this; exact this
+  · by_cases h2 : (nb start).isEmpty = true
+    · have hd : dfs nb Vs start = [start] := by simp only [dfs, hc, h1, h2]; rfl
+      have hnil : nb start = [] := List.isEmpty_iff.mp h2
+      rw [hd]
+      refine ⟨by simp, ?_, rfl⟩
+      intro b
+      constructor
+      · intro hb; simp at hb; subst hb; exact Reach.refl _
+      · intro hr; rw [Reach.eq_of_nil hnil hr]; simp
+    · have hd : dfs nb Vs start = (dfsLoop nb Vs [start] []).reverse := by
+        simp only [dfs, hc, h1, h2]; rfl
+      obtain ⟨hnd, hex, pre, hpre⟩ := dfsLoop_exact nb Vs hu.closed start hs
+      rw [hd]
+      refine ⟨nodup_reverse hnd, fun b => by rw [List.mem_reverse]; exact hex b, ?_⟩
+      rw [hpre]; simp
 
 /-- `dfs` from a node visits every node of its component exactly once -/
 theorem dfs_once (nb : V → List V) (Vs : List V) (hu : Undirected nb Vs) (hd : Vs.Nodup) (start : V) (hs : start ∈ Vs) :
     (dfs nb Vs start).Nodup ∧ ∀ b, b ∈ dfs nb Vs start ↔ Reach nb start b := by
-  sorry
+  have h := dfs_spec nb Vs hu start hs
+  exact ⟨h.1, h.2.1⟩
 
 /-- the traversal starts at the start node -/
 theorem dfs_head (nb : V → List V) (Vs : List V) (hu : Undirected nb Vs) (hd : Vs.Nodup) (start : V) (hs : start ∈ Vs) :
-    (dfs nb Vs start).head? = some start := by
-  sorry
+    (dfs nb Vs start).head? = some start :=
+  (dfs_spec nb Vs hu start hs).2.2
 
 /-! ## biconnected components
 
@@ -48,6 +185,52 @@ def BiccExact : Prop :=
 /-- `isCut` is the property text's definition: removing the node leaves two nodes that are no longer connected -/
 theorem isCut_iff (nb : V → List V) (Vs : List V) (hu : Undirected nb Vs) (hd : Vs.Nodup) (x : V) (hx : x ∈ Vs) :
     isCut nb Vs x = true ↔ ∃ a b, a ∈ Vs ∧ b ∈ Vs ∧ a ≠ x ∧ b ≠ x ∧ ¬ Reach (nbWithout nb x) a b := by
-  sorry
+  have hu' := nbWithout_undirected hu x
+  have hmem : ∀ v, v ∈ Vs.filter (· != x) ↔ v ∈ Vs ∧ v ≠ x := by
+    intro v; simp [List.mem_filter]
+  unfold isCut
+  generalize hW : Vs.filter (· != x) = W at hu' hmem
+  match W, hu', hmem with
+  | [], _, hmem =>
+    simp only [connectedB]
+    constructor
+    · intro h; simp at h
+    · rintro ⟨a, b, ha, _, hax, _⟩
+      have := (hmem a).mpr ⟨ha, hax⟩
+      simp at this
+  | a0 :: W', hu', hmem =>
+    have ha0 : a0 ∈ a0 :: W' := by simp
+    have hcls : ∀ v, (classOf (nbWithout nb x) (a0 :: W') a0).contains v = true ↔
+        Reach (nbWithout nb x) a0 v := by
+      intro v
+      have := (findComp_exact (nbWithout nb x) (a0 :: W') hu' a0 ha0 []
+        (by intro a ha; simp at ha) (by simp)).2.1 v
+      simp only [classOf, List.contains_iff_mem]
+      exact this
+    have hconn : connectedB (nbWithout nb x) (a0 :: W') = true ↔
+        ∀ v ∈ a0 :: W', Reach (nbWithout nb x) a0 v := by
+      simp only [connectedB, List.all_eq_true, hcls]
+    constructor
+    · intro h
+      have hnc : ¬ (∀ v ∈ a0 :: W', Reach (nbWithout nb x) a0 v) := by
+        intro hc
+        rw [hconn.mpr hc] at h
+        simp at h
+      apply Classical.byContradiction
+      intro hne
+      apply hnc
+      intro v hv
+      apply Classical.byContradiction
+      intro hr
+      exact hne ⟨a0, v, ((hmem a0).mp ha0).1, ((hmem v).mp hv).1, ((hmem a0).mp ha0).2,
+        ((hmem v).mp hv).2, hr⟩
+    · rintro ⟨a, b, ha, hb, hax, hbx, hr⟩
+      have hnc : ¬ connectedB (nbWithout nb x) (a0 :: W') = true := by
+        intro hc
+        have hall := hconn.mp hc
+        have h1 := hall a ((hmem a).mpr ⟨ha, hax⟩)
+        have h2 := hall b ((hmem b).mpr ⟨hb, hbx⟩)
+        exact hr (Reach.trans (Reach.symm hu'.symm h1) h2)
+      simpa using hnc
 
 end Gaftools.C15
